@@ -44,8 +44,9 @@ RX = 'tdda/rexpy/rexpy.py'
 VARIANTS += [
     M('C01', 'rex-digit-class-too-wide', E(RX, "        if c.isdecimal():\n            return cats.Digit.code", "        if c.isdigit():\n            return cats.Digit.code"), rule='C01-REX-CLASS', key='fine_class:Digit'),
     M('C01', 'fuzzy-comparator-ignores-tolerance-direction', E(BS, "    return (a >= b) or (a >= fuzz_down(b, epsilon))", "    return (a >= b) or (a >= fuzz_up(b, epsilon))"), rule='C01-CLOSE', key='fuzzy_greater_than'),
-    # fuzz_down(b, e) <= b for every e >= 0, so dropping the exact disjunct changes nothing: once a mutant of the shape rule, now a refactoring
-    M('C01', 'refactor-fuzzy-comparator-without-exact-disjunct', E(BS, "    return (a >= b) or (a >= fuzz_down(b, epsilon))", "    return a >= fuzz_down(b, epsilon)"), kind='refactor'),
+    # not a refactoring: an integer limit beyond 2**53 is moved by the float factor (even 1.0), so the exact disjunct is what keeps
+    # a column's own extreme acceptable (seed C01-c)
+    M('C01', 'fuzzy-comparator-loses-exact-disjunct', E(BS, "    return (a >= b) or (a >= fuzz_down(b, epsilon))", "    return a >= fuzz_down(b, epsilon)"), rule='C01-CLOSE', key='fuzzy_greater_than'),
 ]
 
 VARIANTS += [
